@@ -40,6 +40,7 @@ LEVEL = {
     "technique": "static analysis: path enumeration + finite-domain abstract evaluation of the cache update block",
 }
 LEVEL["decided"] += ' (R11.7) the counter discipline of cache_clear / cache_info (R10.3, shared); (R11.8) the key table (R10.1, shared).'
+LEVEL["decided"] += ' R11.1 also: the wrapped call is not awaited inside a loop; (R11.9) the LRU end orientation (R10.2, shared).'
 
 MAX = 2  # representative maxsize for the abstract cells
 
